@@ -16,7 +16,11 @@
 //!   is, so no digit can be dropped exactly;
 //! * `/`, `checked_div`, `div_rounded` (dividend scale <= n + divisor scale),
 //!   `quantize` (= `div_rounded(q, 0) * q`, same two branches): the divisor (quantum) is a multiple of a prime p in 3..23 and
-//!   the dividend is not, so the quotient never terminates (is no integer);
+//!   the dividend is not, so the quotient never terminates (is no integer); or
+//!   (Decimal / Decimal routes, one time in four or five) the divisor is 2^k or
+//!   5^k and the dividend coprime to it, with k larger than the number of
+//!   digits the scales and the precision leave room for - the quotient
+//!   terminates, but later than where it is rounded;
 //! * `div_rounded` with dividend scale > n + divisor scale (the branch that
 //!   divides first and rounds afterwards): dividend = divisor * k with
 //!   k % 10 != 0 - the inner division is exact (the known truncation defect of
@@ -103,6 +107,21 @@ fn boundary_pair(rng: &mut Rng) -> (i128, i128) {
     let ba = ba.clamp(1, 126);
     let bb = (t - ba + rng.range(0, 1)).clamp(1, 126);
     (bits(rng, ba), bits(rng, bb))
+}
+
+/// A quotient that terminates LATE: divisor 2^k or 5^k with k > `min_k`, and a
+/// dividend coprime to it (the quotient then has exactly k more fractional
+/// digits than the scales account for, so keeping fewer is inexact).
+/// Returns (dividend, divisor), both positive.
+fn late_terminating(rng: &mut Rng, min_k: i64, max_d: u32) -> Option<(i128, i128)> {
+    let (base, kmax): (i128, i64) = if rng.pct(60) { (2, 100) } else { (5, 43) };
+    if min_k + 1 > kmax {
+        return None;
+    }
+    let k = rng.range(min_k + 1, kmax.min(min_k + 1 + 45));
+    let a = coeff(rng, max_d);
+    let a = if base == 2 { a | 1 } else { not_multiple(a, 5) };
+    Some((a, base.pow(k as u32)))
 }
 
 fn coeff(rng: &mut Rng, max_d: u32) -> i128 {
@@ -243,8 +262,14 @@ pub fn probe_op(idx: u64) -> (usize, Op) {
             Op::MulRounded { a: (a, sa), b: (b, sb), n, form: form4 }
         }
         5 | 6 => {
-            let b = sign(divisor(&mut rng, 30), &mut rng);
-            let a = sign(not_multiple(coeff(&mut rng, 36), p), &mut rng);
+            // `/` keeps 18 fractional digits
+            let lt = if rng.pct(25) { late_terminating(&mut rng, (18 + sb as i64 - sa as i64).max(0), 36) } else { None };
+            let (a, b) = match lt {
+                Some(ab) => ab,
+                None => (not_multiple(coeff(&mut rng, 36), p), divisor(&mut rng, 30)),
+            };
+            let b = sign(b, &mut rng);
+            let a = sign(a, &mut rng);
             if route == 5 {
                 Op::Div { a: (a, sa), b: (b, sb), form: form5 }
             } else {
@@ -286,7 +311,12 @@ pub fn probe_op(idx: u64) -> (usize, Op) {
             } else {
                 coeff(&mut rng, 36)
             };
-            let a = sign(not_multiple(a.max(1), p), &mut rng);
+            let lt = if rng.pct(20) { late_terminating(&mut rng, shift as i64, 36) } else { None };
+            let (a, b) = match lt {
+                Some((x, y)) => (x, sign(y, &mut rng)),
+                None => (not_multiple(a.max(1), p), b),
+            };
+            let a = sign(a, &mut rng);
             Op::DivRounded { a: (a, sa), b: (b, sb), n, form: form4 }
         }
         12 => {
